@@ -2,7 +2,6 @@
    nothing here is about floating point. *)
 From Coq Require Import Reals List Bool Lra Lia.
 From Coquelicot Require Import Coquelicot.
-From Interval Require Import Tactic.
 From OSU.Lib Require Import DispAux.
 From OSU.Model Require Import Dispersion.
 Import ListNotations.
@@ -330,7 +329,7 @@ Qed.
 Lemma shortcut_gap x : 5 < x -> x / sinh (2 * x) < 5 / 10000.
 Proof.
   intros Hx.
-  assert (E10 : 22026 < exp 10) by interval.
+  pose proof exp10_lb as E10.
   assert (Em : exp (- (2 * x)) < 1).
   { rewrite <- exp_0. apply exp_increasing. lra. }
   assert (Ep : exp 10 * (1 + (2 * x - 10)) <= exp (2 * x)).
@@ -338,7 +337,7 @@ Proof.
     apply Rmult_le_compat_l. left; apply exp_pos. left. apply exp_ineq1. lra. }
   assert (Hs : 2000 * x < sinh (2 * x)).
   { unfold sinh.
-    assert (22026 * (1 + (2 * x - 10)) <= exp 10 * (1 + (2 * x - 10))) by (apply Rmult_le_compat_r; lra).
+    assert (20001 * (1 + (2 * x - 10)) <= exp 10 * (1 + (2 * x - 10))) by (apply Rmult_le_compat_r; lra).
     lra. }
   apply Rmult_lt_reg_r with (sinh (2 * x)). lra.
   unfold Rdiv at 1. rewrite Rmult_assoc, Rinv_l by lra. lra.
